@@ -1110,6 +1110,11 @@ func (w *walker) bytesProducer(e ast.Expr, depth int) *ast.CallExpr {
 		if outs, _ := w.x.LocalRoots(fi); len(outs) == 1 {
 			return v
 		}
+		// a producer that delegates: it returns the bytes another producer made
+		// (func (p *T) ResetTagHash() []byte { b := encodeTags(p.Tags); p.hash = h(b); return b })
+		if depth < 2 && w.x.DelegateProducer(fi) != nil {
+			return v
+		}
 	case *ast.Ident:
 		obj := w.c.Info.ObjectOf(v)
 		if obj != nil && isLocalVar(obj) && depth < 2 {
@@ -1119,6 +1124,122 @@ func (w *walker) bytesProducer(e ast.Expr, depth int) *ast.CallExpr {
 		}
 	}
 	return nil
+}
+
+// DelegateProducer: for a function without a root stream of its own whose every return statement
+// returns bytes made by one and the same bytes-producing call in its body, that call.
+func (x *Extractor) DelegateProducer(fi *core.FuncInfo) *ast.CallExpr {
+	if fi == nil || fi.Decl.Body == nil {
+		return nil
+	}
+	sig, _ := fi.Obj.Type().(*types.Signature)
+	if sig == nil || sig.Results().Len() != 1 {
+		return nil
+	}
+	if sl, ok := sig.Results().At(0).Type().Underlying().(*types.Slice); !ok || !types.Identical(sl.Elem(), types.Typ[types.Uint8]) {
+		return nil
+	}
+	cw := &walker{x: x, c: x.Ctx(fi)}
+	var found *ast.CallExpr
+	okAll := true
+	n := 0
+	ast.Inspect(fi.Decl.Body, func(m ast.Node) bool {
+		switch v := m.(type) {
+		case *ast.FuncLit:
+			return false
+		case *ast.ReturnStmt:
+			n++
+			if len(v.Results) != 1 {
+				okAll = false
+				return true
+			}
+			pc := cw.bytesProducer(v.Results[0], 1)
+			if pc == nil || (found != nil && found != pc) {
+				okAll = false
+			}
+			found = pc
+		}
+		return true
+	})
+	if !okAll || n == 0 {
+		return nil
+	}
+	return found
+}
+
+// eitherProducer: e is a local assigned exactly twice, once in each arm of one if/else statement, each
+// time from a bytes-producing call: the condition and the two producers.
+func (w *walker) eitherProducer(e ast.Expr) (ast.Expr, *ast.CallExpr, *ast.CallExpr) {
+	id, ok := ast.Unparen(e).(*ast.Ident)
+	if !ok {
+		return nil, nil, nil
+	}
+	obj := w.c.Info.ObjectOf(id)
+	if obj == nil || !isLocalVar(obj) {
+		return nil, nil, nil
+	}
+	assignsIn := func(list []ast.Stmt) (ast.Expr, int) {
+		var rhs ast.Expr
+		n := 0
+		for _, st := range list {
+			ast.Inspect(st, func(m ast.Node) bool {
+				if as, ok := m.(*ast.AssignStmt); ok && len(as.Lhs) == len(as.Rhs) {
+					for i, l := range as.Lhs {
+						if lid, ok := l.(*ast.Ident); ok && w.c.Info.ObjectOf(lid) == obj {
+							rhs = as.Rhs[i]
+							n++
+						}
+					}
+				}
+				return true
+			})
+		}
+		return rhs, n
+	}
+	total := 0
+	ast.Inspect(w.c.FI.Decl.Body, func(m ast.Node) bool {
+		switch v := m.(type) {
+		case *ast.AssignStmt:
+			for _, l := range v.Lhs {
+				if lid, ok := l.(*ast.Ident); ok && w.c.Info.ObjectOf(lid) == obj {
+					total++
+				}
+			}
+		case *ast.ValueSpec:
+			for i, nm := range v.Names {
+				if w.c.Info.Defs[nm] == obj && i < len(v.Values) {
+					total++
+				}
+			}
+		}
+		return true
+	})
+	if total != 2 {
+		return nil, nil, nil
+	}
+	var cond ast.Expr
+	var pa, pb *ast.CallExpr
+	ast.Inspect(w.c.FI.Decl.Body, func(m ast.Node) bool {
+		ifs, ok := m.(*ast.IfStmt)
+		if !ok || cond != nil || ifs.Init != nil {
+			return true
+		}
+		els, ok := ifs.Else.(*ast.BlockStmt)
+		if !ok {
+			return true
+		}
+		ra, na := assignsIn(ifs.Body.List)
+		rb, nb := assignsIn(els.List)
+		if na != 1 || nb != 1 {
+			return true
+		}
+		a, b := w.bytesProducer(ra, 1), w.bytesProducer(rb, 1)
+		if a != nil && b != nil {
+			cond, pa, pb = ifs.Cond, a, b
+		}
+		return true
+	})
+	return cond, pa, pb
 }
 
 // bytesConsumer: the bytes held in local o are handed (once) to a module function that opens a local
@@ -1337,6 +1458,18 @@ func (w *walker) call(v *ast.CallExpr, out *[]Node, outer bool, bind interface{}
 					if pc := w.bytesProducer(v.Args[0], 0); pc != nil {
 						cn := &Call{Pos: pc.Pos(), Callee: calleeOf(w.c.Info, pc), Expr: pc, Fn: w.c, StreamArg: -3}
 						*out = append(*out, &Nested{Pos: v.Pos(), Frame: kind, Body: []Node{cn}, Fn: w.c})
+						return
+					}
+					// a buffer filled by one of two producers, chosen by an earlier if/else
+					// (`if c { b = encodeA() } else { b = encodeB() }; ...; out.WriteBytes(b)`): the
+					// write stands for that choice (the condition keeps its meaning from where it was
+					// tested: the matcher names conditions, it does not re-evaluate them)
+					if cond, pa, pb := w.eitherProducer(v.Args[0]); cond != nil {
+						mk := func(pc *ast.CallExpr) []Node {
+							cn := &Call{Pos: pc.Pos(), Callee: calleeOf(w.c.Info, pc), Expr: pc, Fn: w.c, StreamArg: -3}
+							return []Node{&Nested{Pos: v.Pos(), Frame: kind, Body: []Node{cn}, Fn: w.c}}
+						}
+						*out = append(*out, &If{Pos: v.Pos(), Cond: cond, Then: mk(pa), Else: mk(pb), Fn: w.c})
 						return
 					}
 				}
